@@ -41,12 +41,9 @@ template <class L> Obs queryD(const LabeledDirectedGraph<L> &g, unsigned v) {
     q.push_back(guard([&] { return (Z)g.hasEdge(v, 0, Lab<L>::mk(0)); }));
     return q;
 }
-template <class L> void runD(size_t n0, const std::vector<std::string> &ops) {
-    LabeledDirectedGraph<L> g(n0);
-    for (auto &op : ops) {
+template <class L> Z applyOp(LabeledDirectedGraph<L> &g, const std::string &op) {
         std::istringstream is(op); std::string k; is >> k; long i = 0, j = 0, l = 0, f = 0;
-        if (k == "Q") { is >> i; Segs o = observeD(g); o.insert(o.begin(), Obs{0}); o.push_back(queryD(g, (unsigned)i)); emit("I", o); continue; }
-        Z r = guard([&]() -> Z {
+        return guard([&]() -> Z {
             if (k == "A") { is >> i >> j >> l >> f; g.addEdge(i, j, Lab<L>::mk(l), (bool)f); }
             else if (k == "AR") { is >> i >> j >> l >> f; g.addReciprocalEdge(i, j, Lab<L>::mk(l), (bool)f); }
             else if (k == "R") { is >> i >> j; g.removeEdge(i, j); }
@@ -58,6 +55,13 @@ template <class L> void runD(size_t n0, const std::vector<std::string> &ops) {
             else if (k == "DD") g.removeDuplicateEdges();
             else throw std::logic_error("unknown op " + k);
             return 0; });
+}
+template <class L> void runD(size_t n0, const std::vector<std::string> &ops) {
+    LabeledDirectedGraph<L> g(n0);
+    for (auto &op : ops) {
+        std::istringstream is(op); std::string k; long i = 0; is >> k;
+        if (k == "Q") { is >> i; Segs o = observeD(g); o.insert(o.begin(), Obs{0}); o.push_back(queryD(g, (unsigned)i)); emit("I", o); continue; }
+        Z r = applyOp(g, op);
         Segs o = observeD(g); o.insert(o.begin(), Obs{r}); o.push_back(Obs{}); emit("I", o);
     }
 }
@@ -97,12 +101,9 @@ template <class L> Obs queryU(const LabeledUndirectedGraph<L> &g, unsigned v) {
     q.push_back(guard([&] { return (Z)g.hasEdge(v, 0, Lab<L>::mk(0)); }));
     return q;
 }
-template <class L> void runU(size_t n0, const std::vector<std::string> &ops) {
-    LabeledUndirectedGraph<L> g(n0);
-    for (auto &op : ops) {
+template <class L> Z applyOp(LabeledUndirectedGraph<L> &g, const std::string &op) {
         std::istringstream is(op); std::string k; is >> k; long i = 0, j = 0, l = 0, f = 0;
-        if (k == "Q") { is >> i; Segs o = observeU(g); o.insert(o.begin(), Obs{0}); o.push_back(queryU(g, (unsigned)i)); emit("I", o); continue; }
-        Z r = guard([&]() -> Z {
+        return guard([&]() -> Z {
             if (k == "A") { is >> i >> j >> l >> f; g.addEdge(i, j, Lab<L>::mk(l), (bool)f); }
             else if (k == "R") { is >> i >> j; g.removeEdge(i, j); }
             else if (k == "SL") g.removeSelfLoops();
@@ -113,9 +114,21 @@ template <class L> void runU(size_t n0, const std::vector<std::string> &ops) {
             else if (k == "DD") g.removeDuplicateEdges();
             else throw std::logic_error("unknown op " + k);
             return 0; });
+}
+template <class L> void runU(size_t n0, const std::vector<std::string> &ops) {
+    LabeledUndirectedGraph<L> g(n0);
+    for (auto &op : ops) {
+        std::istringstream is(op); std::string k; long i = 0; is >> k;
+        if (k == "Q") { is >> i; Segs o = observeU(g); o.insert(o.begin(), Obs{0}); o.push_back(queryU(g, (unsigned)i)); emit("I", o); continue; }
+        Z r = applyOp(g, op);
         Segs o = observeU(g); o.insert(o.begin(), Obs{r}); o.push_back(Obs{}); emit("I", o);
     }
 }
+template <class L> Segs obsOf(const LabeledDirectedGraph<L> &g) { return observeD(g); }
+template <class L> Segs obsOf(const LabeledUndirectedGraph<L> &g) { return observeU(g); }
+#include "eqcase.hpp"
+template <class L> void eqD(size_t n, const std::vector<std::string> &a, const std::vector<std::string> &b) { eqCase<LabeledDirectedGraph<L>>(n, a, b); }
+template <class L> void eqU(size_t n, const std::vector<std::string> &a, const std::vector<std::string> &b) { eqCase<LabeledUndirectedGraph<L>>(n, a, b); }
 
 #define DISPATCH(fn, lk, ...)                                                                                         \
     do {                                                                                                              \
@@ -132,8 +145,16 @@ int main() {
     std::string line;
     while (std::getline(std::cin, line)) {
         auto c = line.find(':'); if (c == std::string::npos) continue;
-        std::istringstream hd(line.substr(0, c)); std::string cls, lk; size_t n; hd >> cls >> lk >> n;
+        std::istringstream hd(line.substr(0, c)); std::string cls, lk; size_t n; hd >> cls;
+        bool eq = cls == "EQ"; if (eq) hd >> cls;
+        hd >> lk >> n;
         fputs(("CASE " + line + "\n").c_str(), stdout); fflush(stdout);
+        if (eq) {
+            std::string body = line.substr(c + 1); auto bar = body.find('|');
+            auto a = splitOps(body.substr(0, bar)), b = splitOps(bar == std::string::npos ? "" : body.substr(bar + 1));
+            if (cls == "D") DISPATCH(eqD, lk, n, a, b); else if (cls == "U") DISPATCH(eqU, lk, n, a, b);
+            continue;
+        }
         auto ops = splitOps(line.substr(c + 1));
         if (cls == "D") DISPATCH(runD, lk, n, ops);
         else if (cls == "U") DISPATCH(runU, lk, n, ops);
